@@ -116,7 +116,7 @@ def applyCmd (s : St) (c : Cmd) : St :=
   | .reactEnt src rt sys =>
     ({ s with trkEnt := { s.trkEnt with prepared := s.trkEnt.prepared ++ [(sys, src, rt)] } }).push [.runnerStart sys (.entReact src rt)]
   | .reactDsp src sys h =>
-    ({ s with trkDsp := { s.trkDsp with prepared := s.trkDsp.prepared ++ [(sys, src, h)] } }).push [.runnerStart sys (.dspReact src)]
+    ({ s with trkDsp := { s.trkDsp with prepared := s.trkDsp.prepared ++ [(sys, src, h)] } }).push [.runnerStart sys (.dspReact src h)]
   | .reactEv target d sys =>
     ({ s with trkEnt := { s.trkEnt with prepared := s.trkEnt.prepared ++ [(sys, target, evUnit)] },
               trkEvt := { s.trkEvt with prepared := s.trkEvt.prepared ++ [(sys, d)] } }).push [.runnerStart sys (.entEv target d)]
